@@ -71,6 +71,7 @@ func c12Simp(alg string, a int, keep int) orb.Simplifier {
 }
 
 var c12Prev prevTracker
+var c12Wrap int
 
 // scaledSimp hands the inner simplifier the geometry f times smaller and scales the result back (exact for powers of
 // two): the abstract result does not change, the magnitudes the code sees do.
@@ -110,6 +111,33 @@ func (s scaledSimp) Collection(g orb.Collection) orb.Collection {
 
 func c12Apply(s orb.Simplifier, kind string, generic bool, ls orb.LineString) orb.LineString {
 	in := ls.Clone()
+	c12Wrap++
+	if generic && c12Wrap%3 == 0 {
+		// the same line or ring two collections deep (and, every other time, through the typed Collection method): a
+		// collection is simplified member by member, however deep
+		var m orb.Geometry = in
+		if kind == "ring" {
+			m = orb.Ring(in)
+		}
+		var out orb.Geometry
+		if c12Wrap%2 == 0 {
+			out = s.Simplify(orb.Collection{orb.Point{1, 1}, orb.Collection{m}})
+		} else {
+			out = s.Collection(orb.Collection{orb.Point{1, 1}, orb.Collection{m}})
+		}
+		if col, ok := out.(orb.Collection); ok && len(col) == 2 {
+			if inner, ok := col[1].(orb.Collection); ok && len(inner) == 1 {
+				switch v := inner[0].(type) {
+				case orb.LineString:
+					return v
+				case orb.Ring:
+					return orb.LineString(v)
+				}
+			}
+		}
+		// (a member that simplifies to nothing is dropped from its collection: then the plain route below answers)
+		in = ls.Clone()
+	}
 	if kind == "ring" {
 		if generic {
 			g := s.Simplify(orb.Ring(in))
